@@ -312,6 +312,25 @@ def rule_r(F):
         res.append(bad("C06.R", "C06/R/instr_return/close-before-truncate", f.loc(),
                        "instr_return truncates the value stack without first closing the upvalues that point into the frame: closures "
                        "that outlive the call read slots that are reused by later frames"))
+    # CloseUpvalue releases the slot it closed (scope_end emits exactly one instruction per local leaving the scope)
+    cu = F.fn(IE + "close_upvalues")
+    ccfg = cu.cfg
+    closes = [bi for bi, t in mu.calls(cu) if IE + "_close_upvalues" in callee_names(t["func"])]
+    pops = set(bi for bi, t in mu.calls(cu) if any(n in ("collections::value_stack::ValueStack::pop", "vm::Vm::stack_pop",
+                                                         "collections::value_stack::ValueStack::pop_n") for n in callee_names(t["func"])))
+    if not closes:
+        raise AnchorMissing("_close_upvalues call in close_upvalues")
+    err = mu.error_exit_blocks(cu)
+    rets = set(ccfg.return_blocks())
+    t0 = cu.blocks[closes[0]]["term"]["target"]
+    leak = ccfg.reachable_from(t0, avoid=pops | err) & rets if t0 is not None else rets
+    if pops and not leak:
+        res.append(ok("C06.R", "C06/R/close_upvalues/releases-the-slot", cu.loc(), "CloseUpvalue closes the top slot's upvalues and pops the slot on every Ok path"))
+    else:
+        res.append(bad("C06.R", "C06/R/close_upvalues/releases-the-slot", cu.loc(),
+                       "CloseUpvalue closes the upvalues of the top slot but leaves the slot on the stack: when two captured locals leave a "
+                       "scope together the second CloseUpvalue still sees the first slot on top, the second local's upvalue stays open and "
+                       "its closure later reads a reused stack slot"))
     # scope_end: if var.captured { CloseUpvalue } else { Pop }
     g = F.fn("compiler::Compiler::scope_end")
     from rules.c10 import instr_ctor
@@ -652,14 +671,77 @@ def rule_n(F):
     def base_from_new(place):
         return from_new({"k": "copy", "place": {"l": place["l"], "p": []}})
 
+    # the search cursor: the local that starts at open_upvalues and is advanced through `.next` in the search loop; its
+    # predecessor: the local that receives the cursor before it advances
+    def whole_defs(l):
+        return [d for d in du.defs.get(l, []) if not d[3].get("place", d[3].get("dest"))["p"]]
+
+    def reads_field(d, names, depth=0):
+        if d[2] != "assign" or depth > 4:
+            return False
+        for pl in rvalue_places(d[3]["rv"]):
+            if any(e["k"] == "field" and e["name"] in names for e in pl["p"]):
+                return True
+            if not pl["p"]:
+                ds = whole_defs(pl["l"])
+                if len(ds) == 1 and reads_field(ds[0], names, depth + 1):
+                    return True
+        return False
+
+    cursors = [l for l in range(len(f.mir["locals"])) if len(whole_defs(l)) >= 2 and any(reads_field(d, ("next",)) for d in whole_defs(l))
+               and any(reads_field(d, ("open_upvalues",)) for d in whole_defs(l))]
+    if not cursors:
+        raise AnchorMissing("search cursor over the open-upvalue list in register_upvalue")
+    cursor = cursors[0]
+    def is_copy_of(d, target, depth=0):
+        if d[2] != "assign" or d[3]["rv"]["k"] != "use" or depth > 4:
+            return False
+        q = op_place(d[3]["rv"]["op"])
+        if q is None or q["p"]:
+            return False
+        if q["l"] == target:
+            return True
+        ds = whole_defs(q["l"])
+        return len(ds) == 1 and is_copy_of(ds[0], target, depth + 1)
+
+    preds = [l for l in range(len(f.mir["locals"])) if l != cursor and len(whole_defs(l)) >= 2
+             and any(is_copy_of(d, cursor) for d in whole_defs(l))]
+
+    def derives_from_local(op, target, through_calls=True):
+        p = op_place(op)
+        if p is None:
+            return False
+        seen = set()
+        work = [p["l"]]
+        while work:
+            l = work.pop()
+            if l in seen:
+                continue
+            seen.add(l)
+            if l == target:
+                return True
+            for d in whole_defs(l):
+                if d[2] == "assign":
+                    for pl in rvalue_places(d[3]["rv"]):
+                        work.append(pl["l"])
+                elif through_calls:
+                    for a in d[3]["args"]:
+                        q = op_place(a)
+                        if q is not None:
+                            work.append(q["l"])
+        return False
+
     link_in = []   # writes that make the new node reachable from the list
-    self_link = []  # writes of new.next
+    self_link = []  # writes of new.next with the search cursor (the successor the search stopped at)
+    self_link_other = []
     for bi, si, st in next_writes:
         rv = st["rv"]
         ops = rvalue_operands(rv)
         if base_from_new(st["place"]):
-            if any(from_list(o) for o in ops):
+            if any(derives_from_local(o, cursor, through_calls=False) for o in ops):
                 self_link.append(bi)
+            else:
+                self_link_other.append(bi)
         elif any(from_new(o) for o in ops):
             link_in.append((bi, "predecessor.next"))
     for bi, si, st in head_writes:
@@ -670,21 +752,46 @@ def rule_n(F):
     for bi, what in link_in:
         key = "C06/N/register_upvalue/new-node-linked-before-%s" % what
         if any(cfg.dominates(sb, bi) for sb in self_link):
-            res.append(ok("C06.N", key, f.loc(), "the new upvalue's `next` is written before it becomes reachable through %s" % what))
+            res.append(ok("C06.N", key, f.loc(), "the new upvalue's `next` receives the successor the search stopped at before it becomes reachable through %s" % what))
+        elif any(cfg.dominates(sb, bi) for sb in self_link_other):
+            res.append(bad("C06.N", key, f.loc(),
+                           "the new upvalue's `next` is not the entry the search over the open list stopped at (it is read from the list head or "
+                           "elsewhere): the node is not inserted at its sorted position, the list is no longer ordered by stack slot, so a later "
+                           "search stops early (a second upvalue is created for an already captured variable) and closing upvalues from the "
+                           "head stops before higher slots that sit behind lower ones"))
         else:
             res.append(bad("C06.N", key, f.loc(),
                            "register_upvalue makes the new upvalue reachable through %s without ever writing its `next` (init_upvalue "
                            "creates it with next = null): every open upvalue of a lower stack slot drops out of the list, is never "
                            "closed, and its closure reads a dead stack slot after the function returned" % what))
+    # the head is replaced only when the search found no predecessor
+    for bi, what in link_in:
+        if what != "open_upvalues":
+            continue
+        key = "C06/N/register_upvalue/head-replaced-only-without-predecessor"
+        guarded = False
+        for g in cfg.dom.get(bi, ()):
+            t = f.blocks[g]["term"]
+            if g == bi or t["k"] != "switch":
+                continue
+            if any(derives_from_local(t["discr"], pl) for pl in preds):
+                # the edge into the head write must be one of the switch's edges that excludes the other link-in
+                guarded = True
+        if guarded:
+            res.append(ok("C06.N", key, f.loc(), "the list head is replaced under a test of the search's predecessor"))
+        else:
+            res.append(bad("C06.N", key, f.loc(),
+                           "register_upvalue makes the new upvalue the head of the open list regardless of where the search stopped: upvalues "
+                           "are no longer kept in stack order"))
     return res
 
 
 RULES = [
     Rule("C06.O", rule_o, 3, "value-stack slots addressed from bytecode operands are frame-relative"),
     Rule("C06.L", rule_l, 1, "closure labels are program-unique"),
-    Rule("C06.R", rule_r, 2, "upvalues are closed before their slots disappear"),
+    Rule("C06.R", rule_r, 3, "upvalues are closed before their slots disappear"),
     Rule("C06.V", rule_v, 1, "a closure captures the innermost binding of a name"),
     Rule("C06.D", rule_d, 1, "upvalue descriptors are de-duplicated on their full identity"),
     Rule("C06.X", rule_x, 1, "xor-ed label components cannot cancel"),
-    Rule("C06.N", rule_n, 2, "the open-upvalue list stays linked when a node is inserted"),
+    Rule("C06.N", rule_n, 3, "the open-upvalue list stays linked when a node is inserted"),
 ]
